@@ -93,11 +93,14 @@ def Tree.enum (size : Key → Nat) : Tree → M (List (List Nat) × List Key)
     if a.length ≠ b.length then throw (.crash .valueError)
     return (List.zipWith (· ++ ·) a b, ka ++ kb)
 
-/-- The KEY list `State.splits` returns next to the index tuples.  The code keeps ONE flat list while it evaluates the RPN:
-    two unprocessed operands are appended (`keys + L + R`), an unprocessed RIGHT operand is appended (`keys + R`), but an
-    unprocessed LEFT operand of a processed right operand is put in front of EVERYTHING collected so far
-    (`keys = new_keys_L + keys`) — also in front of the keys of groups that stand to its left in the splitter.  The
-    index tuples themselves are nested in splitter order, so keys and tuple components then disagree (D46). -/
+/-- DOCUMENTATION VARIANT, no longer part of the model (`combinedInd` uses the keys of `Tree.enum`): the key list
+    `State.splits` returned BEFORE the fix of D46 (/repo 932a47fa).  The old code kept ONE flat list while it evaluated the
+    RPN: two unprocessed operands were appended (`keys + L + R`), an unprocessed RIGHT operand was appended (`keys + R`),
+    but an unprocessed LEFT operand of a processed right operand was put in front of EVERYTHING collected so far
+    (`keys = new_keys_L + keys`) — also in front of the keys of groups standing to its left in the splitter — while the
+    index tuples were nested in splitter order.  The fixed code carries the keys with each processed stack term
+    (`keys = keys_L + keys_R`): the leaves in nesting order, i.e. `Tree.leaves` (= the key list of `Tree.enum`).
+    `C03_witness_key_order` (Props/C03.lean) shows the two differ. -/
 def Tree.splitsKeysAux : Tree → List Key → List Key
   | .leaf _, ks => ks
   | .outer l r, ks =>
@@ -600,10 +603,8 @@ def combinedInd (size : Key → Nat) (sts : Sts) (s : St) (statesInd : List (Dic
   let fullNow := outerAll (finals ++ [s.cur])
   match fullNow.bind (Tree.remove (s.curCombAll ++ s.prevCombAll)) with
   | some combined =>
-    let (e, _) ← combined.enum size
-    -- `keys_final` is the key list as `splits` returns it for the EXPANDED rpn (see `Tree.splitsKeys`), the tuples of
-    -- `ind_l_final` are in splitter order
-    let k := combined.splitsKeys
+    -- `State.splits`: index tuples and their keys, both in splitter (nesting) order
+    let (e, k) ← combined.enum size
     -- ind_map[tuple(st[k] for k in keys_final)]: a missing key or an unknown tuple is a KeyError
     if statesInd.all fun sd => (k.map sd.get?).all Option.isSome && e.contains ((k.map sd.get?).map fun o => o.getD 0) then
       return (e, k)
